@@ -1,6 +1,8 @@
 package main
 
 import (
+	"strconv"
+	"regexp"
 	"fmt"
 	"go/token"
 	"go/types"
@@ -18,6 +20,8 @@ type FuncReport struct {
 	Obls    []*Obligation
 	Kind    string
 }
+
+var reExited = regexp.MustCompile(`exited\((\d+)\)`)
 
 func hasTag(tags []string, p string) bool {
 	if len(tags) == 0 {
@@ -172,6 +176,13 @@ func verifyFunc(prog *ssa.Program, specs *SpecDB, fn *ssa.Function, opts verifyO
 		for _, cs := range sp.CallSites {
 			cs.Seen = false
 		}
+		// loop-exit flags mentioned by the contract are tracked from the start
+		for _, en := range sp.Ensures {
+			for _, m := range reExited.FindAllStringSubmatch(en.Src, -1) {
+				k, _ := strconv.Atoi(m[1])
+				e.exitedHeap(k)
+			}
+		}
 	}
 	f.run(st, "true", args)
 	fname := funcDisplay(fn)
@@ -226,6 +237,9 @@ func verifyFunc(prog *ssa.Program, specs *SpecDB, fn *ssa.Function, opts verifyO
 			for _, h := range sortedKeys(r.st.heap) {
 				if sp.Partial || sp.Assumed {
 					break // no frame claim (partial), or the frame is trusted, not checked against the body (assumed)
+				}
+				if strings.HasPrefix(h, "G$") {
+					continue // ghost state (call epochs, loop-exit flags), not memory
 				}
 				ff := f.frameFact(h, mods, entry, r.st, "alloc!0")
 				f.oblige("frame", fmt.Sprintf("%s:frame[%s]@ret%d", fname, h, r.idx+1), r.guard, ff, "only locations in the modifies clause change in heap "+h, nil, r.pos)
